@@ -2289,7 +2289,7 @@ fn eval_int_binop(
                 ));
             }
 
-            if rhs_num > u32::MAX as i64 {
+            if rhs_num > u32::MAX as i64 && lhs_num.unsigned_abs() > 1 {
                 return Err((
                     RestoreValues(vec![lhs_value.clone(), rhs_value.clone()]),
                     EvalError::Exception(ExceptionInfo {
@@ -2303,7 +2303,15 @@ fn eval_int_binop(
                 ));
             }
 
-            match lhs_num.checked_pow(rhs_num as u32) {
+            // Powers of 0, 1 and -1 are representable for any
+            // exponent, and only depend on the exponent's parity.
+            let exponent = if rhs_num > u32::MAX as i64 {
+                2 + (rhs_num % 2) as u32
+            } else {
+                rhs_num as u32
+            };
+
+            match lhs_num.checked_pow(exponent) {
                 Some(num) => Value::new(Value_::Int(num)),
                 None => {
                     return Err((
